@@ -25,6 +25,11 @@ def run(ctx, w):
     c03.run_transition(ctx, w, tb, only_states=["Ground"], rule="Y0")
     ctx.floor("Y0", 20, "Ground-state cells")
     shared.stale_operands(ctx, w, S, R, "Y8", ["Print", "Rep"])
+    from rules import prims
+    prims.row_primitives(ctx, w, S, "Y9")
+    ctx.floor("Y9", 100, "row primitive evaluations")
+    from rules import c02
+    c02.relayout_clears_wrap(ctx, w, S, R, "Y10")
 
 
 def charset_rules(ctx, w):
